@@ -37,6 +37,18 @@ def run (ctx):
     n_loops += 1
     _loop(ctx, repo, f, L)
     _caller_contract(ctx, repo, f, L)
+  # the type-indexed decoder table: both sides customise their table in place (the Nicira vendor hook on the controller's, wrappers
+  # on a switch connection's), so the function that builds it hands out a fresh list - a list kept in a module global and handed to
+  # every caller makes one side's customisation the other's decoder
+  um_ = repo.mod('openflow.util'); mk_ = um_.funcs.get('make_type_to_unpacker_table')
+  if mk_ is not None:
+    ctx.analysed(mk_)
+    globs_ = set(n_ for x_ in ast.walk(mk_.node) if isinstance(x_, ast.Global) for n_ in x_.names) | set(um_.assigns.keys())
+    shared_ = [r_ for r_ in q.returns_of(mk_.node) if isinstance(r_.value, ast.Name) and r_.value.id in globs_ and not any(isinstance(v_, (ast.ListComp, ast.List)) for v_, st_, k_ in q.reaching_assign(mk_.node, r_.value.id) if False)]
+    shared_ = [r_ for r_ in shared_ if any(isinstance(x_, ast.Global) and r_.value.id in x_.names for x_ in ast.walk(mk_.node)) or r_.value.id in um_.assigns]
+    ctx.ob('R-OWN', mk_, "every caller gets a decoder table of its own", not shared_, "a new list per call" if not shared_ else
+           "`return %s` hands every caller the same module-level list; the controller side stores decoders into its table in place (nicira's vendor hook) and so may a switch connection: whichever runs last rewrites the other side's "
+           "decoders - e.g. offsets relative to a slice on one side trip the consumed == declared assertion on the other for every message that is not first in its read" % shared_[0].value.id, (um_, shared_[0]) if shared_ else mk_, 'D3')
   # decoders never size a read by the length of the buffer they are handed (it may hold further messages)
   uses_, nd_ = framing.buffer_length_uses(repo)
   ctx.floor('codec decoders scanned for buffer-length-sized reads', nd_, 60)
